@@ -50,9 +50,20 @@ func (g *gen) enumZeros() []Case {
 		for _, x := range []string{"z8", "z16", "z32", "z64", "zu", "zu8", "zu64", "zf32", "zdur"} {
 			add(env, p(x), printing)
 		}
-		// (a bare literal as the WHOLE expression is left out: the generator of this package never
-		// emits one - {{ 0 }} and {{ 5 }} alike print nothing on the current tree -
-		// literal zeros appear as operands below)
+		// a bare literal as the WHOLE expression (int, float, bool, quoted string; zeros and
+		// non-zeros) in the value positions. Open finding fBareLit: {{ 5 }} and title="{{ 5 }}"
+		// print nothing (a whole expression without operators is looked up as a variable path);
+		// while it is open only the bound attribute is asserted.
+		litPos := valuePos
+		if g.open[fBareLit] {
+			litPos = []string{posBound}
+		}
+		for _, e := range []Expr{li("0"), li("5"), lf("0.0"), lf("2.5"), lb("false"), lb("true"), ls("x", "s"), ls("x y", "d"), ls("", "s")} {
+			if g.open[fBareLit] {
+				g.excluded(fBareLit)
+			}
+			add(env, e, litPos)
+		}
 		// results that are zero although no operand is
 		av, _ := m["a"].(int)
 		for _, e := range []Expr{
